@@ -226,6 +226,81 @@ pub fn run(ctx: &Ctx) -> CheckResult {
     });
     stats.merge(st);
 
+    // ---- configuration / environment variants on one pristine bundled file per tool
+    let mut cfg_cases: Vec<Case> = vec![];
+    {
+        let mut seen: HashSet<String> = HashSet::new();
+        for t in targets.iter().filter(|t| t.bundled) {
+            if !seen.insert(t.cmd.clone()) {
+                continue;
+            }
+            let base = target_case(t, 0, &[], "");
+            let mk = |name: &str, f: &dyn Fn(&mut Case)| {
+                let mut c = base.clone();
+                c.name = format!("{} [config:{}]", base.name, name);
+                c.meta = json!({});
+                f(&mut c);
+                c
+            };
+            let path = t.path.clone();
+            cfg_cases.push(mk("missing-input", &|c| c.inputs.retain(|i| i.path != path)));
+            cfg_cases.push(mk("input-is-directory", &|c| {
+                c.inputs.retain(|i| i.path != path);
+                c.inputs.push(Input::text(&format!("{}/inner", path), "x"));
+            }));
+            cfg_cases.push(mk("output-dir-missing", &|c| c.steps[0].argv.extend([s("-o"), s("no/such/dir/out.txt")])));
+            cfg_cases.push(mk("output-is-directory", &|c| {
+                c.inputs.push(Input::text("outdir/inner", "x"));
+                c.steps[0].argv.extend([s("-o"), s("outdir")]);
+            }));
+            for (name, val) in [("map-path-missing-dir", "nonexistent"), ("map-path-two-dirs", "nonexistent:map"), ("map-path-empty-entries", "::map:"), ("map-path-is-file", "map/any.anmm"), ("map-path-dir", "map")] {
+                cfg_cases.push(mk(name, &|c| {
+                    // drop the explicit -m so that the environment decides
+                    if let Some(p) = c.steps[0].argv.iter().position(|a| a == "-m") {
+                        c.steps[0].argv.drain(p..p + 2);
+                    }
+                    c.steps[0].env.push(("TRUTH_MAP_PATH".into(), val.into()));
+                }));
+            }
+            cfg_cases.push(mk("mapfile-wrong-language", &|c| c.steps[0].argv.extend([s("-m"), s(if t.cmd == "truanm" { "map/any.stdm" } else { "map/any.anmm" })])));
+            cfg_cases.push(mk("wrong-game", &|c| {
+                if let Some(p) = c.steps[0].argv.iter().position(|a| a == "-g") {
+                    c.steps[0].argv[p + 1] = if c.steps[0].argv[p + 1] == "th06" { s("th18") } else { s("th06") };
+                }
+            }));
+            cfg_cases.push(mk("max-columns-zero", &|c| c.steps[0].argv.extend([s("--max-columns"), s("0")])));
+            cfg_cases.push(mk("max-columns-huge", &|c| c.steps[0].argv.extend([s("--max-columns"), s("18446744073709551615")])));
+            cfg_cases.push(mk("max-columns-garbage", &|c| c.steps[0].argv.extend([s("--max-columns"), s("-3")])));
+            cfg_cases.push(mk("all-flags", &|c| c.steps[0].argv.extend(["--no-blocks", "--no-intrinsics", "--no-arguments", "--no-diff-switches", "--no-calls", "--show-instr-offsets"].iter().map(|x| s(x)))));
+        }
+    }
+    // extract into a directory that already contains symbolic links where it wants to write:
+    // a self-referential link, a two-link cycle, a dangling link, a link out of the directory, a link
+    // to a regular directory.  Must terminate with success or an error (tarbomb protection), never hang.
+    for t in targets.iter().filter(|t| t.bundled && t.name.starts_with("res/th12-embedded-image-source")) {
+        let base = target_case(t, 5, &[], "");
+        let variants: Vec<(&str, Vec<Input>)> = vec![
+            ("self-link", vec![Input::symlink("extracted/lmao.png", "lmao.png")]),
+            ("two-link-cycle", vec![Input::symlink("extracted/subdir", "other"), Input::symlink("extracted/other", "subdir")]),
+            ("dangling-link", vec![Input::symlink("extracted/lmao.png", "nowhere/at/all.png")]),
+            ("link-out-of-dir", vec![Input::symlink("extracted/subdir", "../outside"), Input::text("outside/.keep", "")]),
+            ("link-to-dir", vec![Input::symlink("extracted/subdir", "realdir"), Input::text("extracted/realdir/.keep", "")]),
+            ("file-where-dir-expected", vec![Input::text("extracted/subdir", "i am a file")]),
+            ("link-to-file-target", vec![Input::symlink("extracted/lmao.png", "real.png"), Input::text("extracted/real.png", "old")]),
+        ];
+        for (name, extra_inputs) in variants {
+            let mut c = base.clone();
+            c.name = format!("{} [config:extract-into:{}]", base.name, name);
+            c.meta = json!({});
+            c.inputs.extend(extra_inputs);
+            cfg_cases.push(c);
+        }
+    }
+    let (_r, st_cfg, f_cfg, h_cfg) = par_map(ctx, &cfg_cases, |w, _, c| w.judge(c));
+    stats.merge(st_cfg);
+    findings.extend(f_cfg);
+    herr.extend(h_cfg);
+
     // ---- read-time faults on the pristine bundled files (every command)
     let bundled: Vec<(usize, usize)> = targets.iter().enumerate().filter(|(_, t)| t.bundled).flat_map(|(ti, t)| (0..n_commands(t)).map(move |k| (ti, k))).collect();
     let bundled = if quick { thin(&bundled, 40, ctx.seed) } else { bundled };
@@ -256,6 +331,7 @@ pub fn run(ctx: &Ctx) -> CheckResult {
 
     let mut extra = BTreeMap::new();
     extra.insert("targets".into(), json!(targets.len()));
+    extra.insert("configuration_variants".into(), json!(cfg_cases.len()));
     extra.insert("bundled_targets".into(), json!(targets.iter().filter(|t| t.bundled).count()));
     extra.insert("single_fault_space_size".into(), json!(n_space));
     extra.insert("storage_faults_selected".into(), json!(n_selected));
